@@ -1,7 +1,7 @@
 /- R9G9B9E5: the statement for all (exponent, mantissa) pairs. -/
 import DdsModel.Proofs.ConvSharedChunks
 namespace Dds.ConvProofs
-open Dds Dds.Conv Dds.Spec Dds.F32
+open Dds Dds.Conv Dds.Spec Dds.CF32 Dds.ConvRange
 
 theorem shared_ok : ∀ i, i < 16384 → okShared i = true :=
   by
